@@ -600,6 +600,17 @@ func (repo *GoGitRepo) StoreCommit(treeHash Hash, parents ...Hash) (Hash, error)
 	return repo.StoreSignedCommit(treeHash, nil, parents...)
 }
 
+// cleanIdent removes what git itself removes from a name or an email before writing it into a commit: a '<', a '>'
+// or a line break in one of them makes the author/committer line malformed.
+func cleanIdent(s string) string {
+	return strings.Map(func(r rune) rune {
+		if r == '<' || r == '>' || r == '\n' {
+			return -1
+		}
+		return r
+	}, s)
+}
+
 // StoreSignedCommit will store a Git commit with the given Git tree. If signKey is not nil, the commit
 // will be signed accordingly.
 func (repo *GoGitRepo) StoreSignedCommit(treeHash Hash, signKey *openpgp.Entity, parents ...Hash) (Hash, error) {
@@ -610,13 +621,13 @@ func (repo *GoGitRepo) StoreSignedCommit(treeHash Hash, signKey *openpgp.Entity,
 
 	commit := object.Commit{
 		Author: object.Signature{
-			Name:  cfg.Author.Name,
-			Email: cfg.Author.Email,
+			Name:  cleanIdent(cfg.Author.Name),
+			Email: cleanIdent(cfg.Author.Email),
 			When:  time.Now(),
 		},
 		Committer: object.Signature{
-			Name:  cfg.Committer.Name,
-			Email: cfg.Committer.Email,
+			Name:  cleanIdent(cfg.Committer.Name),
+			Email: cleanIdent(cfg.Committer.Email),
 			When:  time.Now(),
 		},
 		Message:  "",
